@@ -89,6 +89,7 @@ pub fn run(ctx: &Ctx) {
     let mut mal = Vec::new();
     for len in 0..=130usize { for a in alphabets { let cs: Vec<char> = a.chars().collect(); mal.push(Case::Malformed { s: (0..len).map(|i| cs[(i * 7 + len) % cs.len()]).collect() }); } mal.push(Case::Malformed { s: valid.chars().take(len).collect() }); }
     for i in 0..112 { for r in ['=', '-', '_', ' ', '\n', 'é', 'A', '/'] { let mut cs: Vec<char> = valid.chars().collect(); cs[i] = r; mal.push(Case::Malformed { s: cs.into_iter().collect() }); } }
+    { let cs: Vec<char> = valid.chars().collect(); for pos in 0..=cs.len() { for ch in [' ', '\n', '\t', '=', '-'] { let mut v = cs.clone(); v.insert(pos, ch); mal.push(Case::Malformed { s: v.into_iter().collect() }); } } }
     mal.push(Case::Malformed { s: format!("{}=", valid) }); mal.push(Case::Malformed { s: format!("{}====", valid) }); mal.push(Case::Malformed { s: format!(" {}", valid) }); mal.push(Case::Malformed { s: format!("{}\n", valid) });
     ctx.sse_vec("malformed_strings", "every length 0..=130 x 6 alphabets; every position of a valid 112-character string x 8 replacement characters; padding/whitespace variants", mal, check);
     ctx.pbt("malformed_random", ctx.n(20_000, 500_000), || prop_oneof![12 => "[A-Za-z0-9+/=]{0,130}", 12 => "\\PC{0,60}", 12 => "[A-Za-z0-9+/]{112}", 1 => "ZWdrM[A-Za-z0-9+/]{107}"].prop_map(|s| Case::Malformed { s }), check);
